@@ -49,6 +49,7 @@ def plan(tier, seed):
     specs.append({"kind": "interleave", "idx": 99, "flavour": "asan", "budget_s": 25 if q else 150, "timeout_s": 1200})
     for i in range(2 if q else 4):
         specs.append({"kind": "snapshots", "idx": i, "budget_s": 25 if q else 200})
+    specs.append({"kind": "inputs_sweep", "idx": 0, "budget_s": 20 if q else 150})
     trials = 32 if q else 200
     for part in range(8 if q else 12):
         specs.append({"kind": "first_use", "part": part, "parts": 8 if q else 12, "trials": trials, "timeout_s": 900 if q else 2400})
@@ -60,7 +61,8 @@ def finalize(agg, tier):
     out = []
     for n in ("thread_runs:tsan", "thread_runs:plain", "thread_transcripts_compared", "hammer_digests", "interleaved_programs",
               "copies_checked", "destroyed_neighbours", "snapshots_compared", "signer_hash_state_checked", "first_use_trials",
-              "first_use_yields_injected", "native_hammer_calls", "native_hammer_runs:plain", "native_hammer_runs:tsan", "python_hammer_calls", "random_storm_draws"):
+              "first_use_yields_injected", "native_hammer_calls", "native_hammer_runs:plain", "native_hammer_runs:tsan", "python_hammer_calls", "random_storm_draws", "input_sweep_rounds",
+              "input_buffers_compared"):
         if not c.get(n):
             out.append("deciding counter %s is zero" % n)
     for cv in CURVES:
@@ -872,6 +874,170 @@ def w_interleave(spec, ctx):
 
 
 # ---------------------------------------------------------------------------
+def w_inputs_sweep(spec, ctx):
+    """Every argument that can be given as a mutable buffer IS given as a bytearray (or a memoryview of one); value and
+    LENGTH of each are compared before and after the call.  Designated output buffers (output=) are not inputs."""
+    import importlib
+    from Crypto.PublicKey import RSA, ECC, DSA
+    from Crypto.Signature import pkcs1_15, pss, DSS, eddsa
+    from Crypto.Hash import SHA256, SHA1, SHA512, SHAKE128, SHAKE256, HMAC, CMAC, Poly1305, BLAKE2b, BLAKE2s, KMAC128, cSHAKE128, \
+        TupleHash128, KangarooTwelve, TurboSHAKE128, SHA3_256, MD5, keccak
+    from Crypto.Cipher import AES, DES3, Blowfish, ChaCha20, Salsa20, ARC4, ChaCha20_Poly1305, PKCS1_OAEP, PKCS1_v1_5
+    from Crypto.Protocol import KDF, HPKE, DH
+    from Crypto.Protocol.SecretSharing import Shamir
+    from Crypto.Util import Padding, strxor, number, Counter, asn1
+    from Crypto.IO import PEM, PKCS8
+    rng = ctx.rng
+    rsa = RSA.generate(1024)
+    ecc = ECC.generate(curve="P-256")
+    ed = ECC.generate(curve="Ed25519")
+    ed4 = ECC.generate(curve="Ed448")
+    x25 = ECC.generate(curve="Curve25519")
+    from .fixtures import DSA_DOMAINS
+    dsa = DSA.generate(1024, domain=DSA_DOMAINS[0])
+    reg = []
+
+    def B(data, view=False):
+        """a caller-owned mutable buffer holding `data` (its value at creation is kept for the comparison)"""
+        b = bytearray(data)
+        reg.append((b, bytes(data)))
+        return memoryview(b) if view else b
+
+    R = rng.randbytes
+
+    def apis():
+        k16, k32, n12, iv16 = R(16), R(32), R(12), R(16)
+        m = R(rng.choice([0, 1, 15, 16, 17, 64, 100]))
+        m16 = R(16 * rng.randint(1, 4))
+        v = rng.random() < 0.3
+        yield "PBKDF1", lambda: KDF.PBKDF1(B(b"password"), B(R(8)), 16, 3, SHA1)
+        yield "PBKDF2", lambda: KDF.PBKDF2(B(b"password"), B(R(8)), 40, count=3, hmac_hash_module=SHA256)
+        yield "PBKDF2-prf", lambda: KDF.PBKDF2(B(b"password"), B(R(8)), 20, count=2, prf=lambda p, s_: HMAC.new(p, s_, SHA1).digest())
+        yield "HKDF", lambda: KDF.HKDF(B(R(20)), 40, B(R(8)), SHA256, context=B(b"ctx"))
+        yield "scrypt", lambda: KDF.scrypt(B(b"password"), B(R(8)), 16, 16, 1, 1)
+        yield "bcrypt", lambda: KDF.bcrypt(B(R(rng.choice([1, 8, 28, 71, 72])).replace(b"\0", b"a")), 4, B(R(16)))
+        h0 = KDF.bcrypt(b"pw", 4, R(16))
+        yield "bcrypt_check", lambda: KDF.bcrypt_check(B(b"pw"), B(h0))
+        yield "SP800_108_Counter", lambda: KDF.SP800_108_Counter(B(R(16)), 32, lambda k_, d_: HMAC.new(k_, d_, SHA256).digest(), label=B(b"lab"), context=B(b"c"))
+        for name, H in (("SHA256", SHA256), ("SHA1", SHA1), ("SHA512", SHA512), ("SHA3_256", SHA3_256), ("MD5", MD5)):
+            yield "hash:" + name, lambda H=H: (H.new(B(m, v)).update(B(m)), H.new(B(m)).digest())
+        yield "hash:keccak", lambda: keccak.new(digest_bits=256, data=B(m)).update(B(m, v)).digest()
+        yield "hash:BLAKE2b", lambda: BLAKE2b.new(digest_bytes=32, key=B(k16), data=B(m)).update(B(m, v)).digest()
+        yield "hash:BLAKE2s", lambda: BLAKE2s.new(digest_bytes=16, key=B(k16), data=B(m)).digest()
+        yield "xof:SHAKE128", lambda: SHAKE128.new(B(m)).update(B(m, v)).read(40)
+        yield "xof:cSHAKE128", lambda: cSHAKE128.new(data=B(m), custom=B(b"cust")).read(40)
+        yield "xof:K12", lambda: KangarooTwelve.new(data=B(m), custom=B(b"cust")).read(40)
+        yield "xof:TurboSHAKE128", lambda: TurboSHAKE128.new(data=B(m)).read(40)
+        yield "mac:HMAC", lambda: HMAC.new(B(k16), B(m), SHA256).update(B(m, v)).digest()
+        yield "mac:HMAC.verify", lambda: HMAC.new(B(k16), B(m), SHA256).verify(B(HMAC.new(k16, m, SHA256).digest()))
+        yield "mac:CMAC", lambda: CMAC.new(B(k16), B(m), ciphermod=AES).update(B(m, v)).digest()
+        yield "mac:Poly1305", lambda: Poly1305.new(key=B(k32), nonce=B(iv16), cipher=AES, data=B(m)).digest()
+        yield "mac:KMAC128", lambda: KMAC128.new(key=B(k16), data=B(m), mac_len=16, custom=B(b"c")).digest()
+        yield "mac:TupleHash128", lambda: TupleHash128.new(digest_bytes=16).update(B(m), B(m)).digest()
+        for mode in ("ECB", "CBC", "CFB", "OFB", "CTR", "OPENPGP", "GCM", "EAX", "OCB", "CCM", "SIV", "KW", "KWP"):
+            def blk(mode=mode):
+                mid = getattr(AES, "MODE_" + mode)
+                if mode == "ECB":
+                    AES.new(B(k16), mid).encrypt(B(m16, v))
+                    AES.new(B(k16), mid).decrypt(B(m16))
+                elif mode in ("CBC", "CFB", "OFB", "OPENPGP"):
+                    c = AES.new(B(k16), mid, iv=B(iv16))
+                    ct = c.encrypt(B(m16, v))
+                    if mode != "OPENPGP":
+                        AES.new(B(k16), mid, iv=B(iv16)).decrypt(B(ct))
+                elif mode == "CTR":
+                    AES.new(B(k16), mid, nonce=B(n12[:8])).encrypt(B(m, v))
+                    AES.new(B(k16), mid, counter=Counter.new(64, prefix=B(n12[:8]))).decrypt(B(m))
+                elif mode in ("KW", "KWP"):
+                    w = AES.new(B(k16), mid).seal(B(m16 + m16[:8] if mode == "KW" else (m or b"x"))) if hasattr(AES.new(k16, mid), "seal") else None
+                    if w is not None:
+                        AES.new(B(k16), mid).unseal(B(w))
+                else:
+                    kk = k32 + k32 if mode == "SIV" else k16
+                    nn = n12[:11] if mode == "CCM" else n12
+                    c = AES.new(B(kk), mid, nonce=B(nn))
+                    c.update(B(m))
+                    ct, tag = c.encrypt_and_digest(B(m, v))
+                    d = AES.new(B(kk), mid, nonce=B(nn))
+                    d.update(B(m, v))
+                    d.decrypt_and_verify(B(ct), B(tag))
+            yield "AES-" + mode, blk
+        yield "DES3-CBC", lambda: DES3.new(B(DES3.adjust_key_parity(bytes(range(1, 25)))), DES3.MODE_CBC, iv=B(R(8))).encrypt(B(m16))
+        yield "Blowfish-CFB", lambda: Blowfish.new(B(R(9)), Blowfish.MODE_CFB, iv=B(R(8)), segment_size=16).encrypt(B(m16))
+        yield "ChaCha20", lambda: ChaCha20.new(key=B(k32), nonce=B(n12)).encrypt(B(m, v))
+        yield "Salsa20", lambda: Salsa20.new(key=B(k32), nonce=B(n12[:8])).encrypt(B(m, v))
+        yield "ARC4", lambda: ARC4.new(B(k16)).encrypt(B(m, v))
+
+        def ccp():
+            c = ChaCha20_Poly1305.new(key=B(k32), nonce=B(n12))
+            c.update(B(m))
+            ct, tag = c.encrypt_and_digest(B(m, v))
+            d = ChaCha20_Poly1305.new(key=B(k32), nonce=B(n12))
+            d.update(B(m))
+            d.decrypt_and_verify(B(ct), B(tag))
+        yield "ChaCha20_Poly1305", ccp
+        small = R(20)
+        yield "OAEP", lambda: PKCS1_OAEP.new(rsa, label=B(b"lab")).decrypt(B(PKCS1_OAEP.new(rsa, label=B(b"lab")).encrypt(B(small))))
+        yield "PKCS1_v1_5", lambda: PKCS1_v1_5.new(rsa).decrypt(B(PKCS1_v1_5.new(rsa).encrypt(B(small))), B(R(16)))
+        yield "PKCS1_v1_5-bad", lambda: PKCS1_v1_5.new(rsa).decrypt(B(R(127).rjust(128, b"\0")), B(R(16)))
+        yield "pkcs1_15.verify", lambda: pkcs1_15.new(rsa).verify(SHA256.new(B(m)), B(pkcs1_15.new(rsa).sign(SHA256.new(m))))
+        yield "pss.verify", lambda: pss.new(rsa).verify(SHA256.new(B(m)), B(pss.new(rsa).sign(SHA256.new(m))))
+        yield "DSS-ecdsa.verify", lambda: DSS.new(ecc, "fips-186-3").verify(SHA256.new(m), B(DSS.new(ecc, "deterministic-rfc6979").sign(SHA256.new(m))))
+        yield "DSS-dsa.verify", lambda: DSS.new(dsa, "fips-186-3", "der").verify(SHA256.new(m), B(DSS.new(dsa, "fips-186-3", "der").sign(SHA256.new(m))))
+        yield "eddsa-25519", lambda: eddsa.new(ed, "rfc8032", context=B(b"ctx")).verify(B(m), B(eddsa.new(ed, "rfc8032", context=B(b"ctx")).sign(B(m))))
+        yield "eddsa-448", lambda: eddsa.new(ed4, "rfc8032").verify(B(m), B(eddsa.new(ed4, "rfc8032").sign(B(m))))
+        yield "RSA.import_key", lambda: (RSA.import_key(B(rsa.export_key("DER"))), RSA.import_key(B(rsa.export_key("PEM"))),
+                                         RSA.import_key(B(rsa.export_key("DER", passphrase=B(b"pw"), pkcs=8, protection="PBKDF2WithHMAC-SHA1AndAES128-CBC",
+                                                                         prot_params={"iteration_count": 2})), passphrase=B(b"pw")))
+        yield "ECC.import_key", lambda: (ECC.import_key(B(ecc.export_key(format="DER"))), ECC.import_key(B(ecc.public_key().export_key(format="SEC1")), curve_name="P-256"),
+                                         ECC.import_key(B(ed.export_key(format="DER"))))
+        yield "DSA.import_key", lambda: DSA.import_key(B(dsa.export_key("DER")))
+        yield "ECC.construct-seed", lambda: ECC.construct(curve="Ed25519", seed=B(R(32)))
+        yield "eddsa.import", lambda: (eddsa.import_public_key(B(ed.public_key().export_key(format="raw"))), eddsa.import_private_key(B(R(32))))
+        yield "DH.import_x25519", lambda: (DH.import_x25519_public_key(B(x25.public_key().export_key(format="raw"))), DH.import_x25519_private_key(B(R(32))))
+        yield "DH.key_agreement", lambda: DH.key_agreement(static_priv=x25, static_pub=ECC.generate(curve="Curve25519").public_key(), kdf=lambda z: SHA256.new(z).digest())
+        yield "PKCS8", lambda: PKCS8.unwrap(B(PKCS8.wrap(B(asn1.DerOctetString(R(20)).encode()), "1.3.101.112", key_params=None)))
+        yield "PKCS8-encrypted", lambda: PKCS8.unwrap(B(PKCS8.wrap(B(asn1.DerOctetString(R(20)).encode()), "1.3.101.112", passphrase=B(b"pw"), key_params=None,
+                                                                   protection="PBKDF2WithHMAC-SHA1AndAES128-CBC", prot_params={"iteration_count": 2})), B(b"pw"))
+        yield "PEM", lambda: PEM.decode(PEM.encode(B(R(50)), "X", passphrase=B(b"pw")), passphrase=B(b"pw"))
+        yield "Padding", lambda: [Padding.unpad(B(Padding.pad(B(m), 16, st)), 16, st) for st in ("pkcs7", "x923", "iso7816")]
+        yield "strxor", lambda: (strxor.strxor(B(m), B(m, v)), strxor.strxor_c(B(m), 9))
+        yield "number", lambda: (number.bytes_to_long(B(m)), number.long_to_bytes(5, 4))
+        yield "asn1", lambda: (asn1.DerSequence().decode(B(asn1.DerSequence([1, 2, asn1.DerNull().encode()]).encode())),
+                               asn1.DerOctetString(B(m)).encode(), asn1.DerBitString(B(m)).encode(), asn1.DerOctetString().decode(B(asn1.DerOctetString(m).encode())))
+        secret = R(16)
+        yield "Shamir", lambda: Shamir.combine([(i, B(s_)) for i, s_ in Shamir.split(2, 3, B(secret))[:2]])
+
+        def hp():
+            s_ = HPKE.new(receiver_key=x25.public_key(), aead_id=HPKE.AEAD.AES128_GCM, info=B(b"info"))
+            ct = s_.seal(B(m), B(b"aad"))
+            HPKE.new(receiver_key=x25, aead_id=HPKE.AEAD.AES128_GCM, enc=B(s_.enc), info=B(b"info")).unseal(B(ct), B(b"aad"))
+        yield "HPKE", hp
+
+    first = True
+    while first or not ctx.expired():
+        first = False
+        for api, fn in apis():
+            del reg[:]
+            ctx.case(("inputs", api))
+            try:
+                fn()
+            except TypeError:
+                ctx.count("input_sweep_typeerror:" + api)       # this entry point does not take mutable buffers
+                continue
+            except ValueError:
+                ctx.count("input_sweep_valueerror:" + api)      # e.g. the tampered v1.5 ciphertext; inputs are still compared
+            for b_, orig in reg:
+                ctx.count("snapshots_compared")
+                ctx.count("input_buffers_compared")
+                now = bytes(b_)
+                ctx.check(now == orig, "snapshot:input-mutated:" + api.split(":")[0].split("-")[0],
+                          "a caller-owned input buffer (bytearray / memoryview) changed value or length during the call",
+                          lambda: {"api": api, "before": orig.hex()[:200], "before_len": len(orig), "after": now.hex()[:200],
+                                   "after_len": len(now)})
+        ctx.count("input_sweep_rounds")
+
+
 def w_snapshots(spec, ctx):
     """Arguments before/after each call; hash/XOF objects handed to signers."""
     from Crypto.PublicKey import RSA, ECC, DSA
